@@ -233,6 +233,7 @@ def main():
             trusted_base=spec.get("trusted_base", []) + suites.COMMON_TRUSTED,
             theorems=proof["theorems"], print_assumptions=proof["assumptions"][-2000:],
             proof_ok=proof["ok"], proof_reason=proof["reason"],
+            coqchk=(proof.get("coqchk") or "not run in this tier (quick): coqchk -o re-checks the compiled property file and everything it depends on in the thorough tier")[-600:],
             evaluations=cov["evaluations"], distinct_nontrivial=len(cov["distinct"]),
             rule=spec.get("rule", ""), samples=cov["samples"][:4] or [dict(note="proof-only run")],
             traces_validated_against_impl=cov["traces"], suites=cov["suites"],
